@@ -1117,7 +1117,10 @@ class Signature:
             )
             return None
         if not accepts_extra_keywords:
-            extra_kwargs = set(actual_args.keywords) - keywords_consumed
+            # Keep the order in which the keywords were passed so that the message is deterministic.
+            extra_kwargs = [
+                key for key in actual_args.keywords if key not in keywords_consumed
+            ]
             if extra_kwargs:
                 extra_kwargs_str = ", ".join(map(repr, extra_kwargs))
                 if len(extra_kwargs) == 1:
